@@ -1,11 +1,24 @@
 #!/bin/bash
-# Run every claimed check (quick tier by default) on /repo's current tree and validate MANIFEST + evidence.
+# Run every claimed check on /repo's current tree and validate MANIFEST + evidence.
+#   run_all.sh            quick tier
+#   run_all.sh thorough   thorough tier (second backend + mutation audit; slow)
+#   run_all.sh both       quick, then thorough without the mutation audit (catches config-dependent alarms), then quick
+#                         again so that the committed evidence is the quick tier's
 cd "$(dirname "$0")/.."
 tier=${1:-quick}
 rc=0
-for p in $(python3 -c "import json;print(' '.join(c['property_id'] for c in json.load(open('MANIFEST.json'))['checks']))"); do
-  ./check $p --tier $tier 2>/dev/null | grep -E "^C[0-9]+:|VIOLATION|KNOWN-FINDING" || rc=1
-  [ "${PIPESTATUS[0]}" = "0" ] || rc=1
-done
+props=$(python3 -c "import json;print(' '.join(c['property_id'] for c in json.load(open('MANIFEST.json'))['checks']))")
+run() {
+  for p in $props; do
+    $2 ./check $p --tier $1 2>/dev/null | grep -E "^C[0-9]+:|VIOLATION|KNOWN-FINDING" || rc=1
+    [ "${PIPESTATUS[0]}" = "0" ] || rc=1
+  done
+}
+if [ "$tier" = "both" ]; then
+  run thorough "env VERIF_NO_AUDIT=1"
+  run quick ""
+else
+  run $tier ""
+fi
 python3-vt tools/validate.py || rc=1
 exit $rc
